@@ -361,6 +361,7 @@ def _real_worker(case):
         return out
     finally:
         pool.cleanup()
+        cg.cleanup_helpers()
 
 
 _pool = None
@@ -437,31 +438,39 @@ def gen_case(ctx, i):
         how = "loop" if rng.random() < 0.3 else True
         rng.choice(content[kind])[1]["bad"] = how
         stratum = "untranslatable-loop" if how == "loop" else "untranslatable"
-    elif r < 0.78:    # few variables, many reactions, mostly computed coefficients, function objects shared between
+    elif r < 0.74:    # few variables, many reactions, mostly computed coefficients, function objects shared between
         #               components (rates, derived values, coefficients) with different argument lists
         content = cg.gen_content(rng, n_vars=(1, 2), n_pars=(2, 3), n_comps=(3, 7), p_dyn_coef=0.75,
                                  all_vars_have_eq=True, name_fn=cg.Namer(rng, 0.6))
         stratum = "shared-functions"
-    elif r < 0.90:    # functions defined in modules of their own that have module-level float constants: some are read
+    elif r < 0.84:    # functions defined in modules of their own that have module-level float constants: some are read
         #               by the function, some only share a name with a parameter; then a session step: the constants
         #               change and code is generated again from the same model in the same process
         content = cg.gen_content(rng, all_vars_have_eq=True, p_modconst=0.6, p_dyn_coef=0.4,
                                  name_fn=cg.Namer(rng, 0.3))
         stratum = "module-constants"
         extra["session"] = cg.has_session(content)
-    else:             # wider expression fragment (/ % ** unary minus, nested): Python text only, executed, R vs S
+    elif r < 0.95:    # wider expression fragment (/ % ** unary minus, nested): Python text only, executed, R vs S
         content = cg.gen_content(rng, all_vars_have_eq=True, rich=True, p_dyn_coef=0.3, small=(1, 2, 4), p_time=0.0,
                                  n_pars=(1, 3))
         stratum = "wider-expressions"
         extra["oracle_only"] = True
         vals = (1, 2, 4, 8)
+    else:             # functions with control flow (if/elif/else, conditional expressions, every comparison, abs/min/
+        #               max, local imports) at negative, zero, boundary and positive states and parameters
+        content = cg.gen_content(rng, all_vars_have_eq=True, rich="cond", p_dyn_coef=0.3, small=cg.COND_VALUES,
+                                 p_time=0.0, n_pars=(1, 3), n_comps=(1, 5))
+        stratum = "conditionals"
+        extra["oracle_only"] = True
+        vals = cg.COND_VALUES
     plain = [k for k, v in content["pars"] if "v" in v]
     free = rng.sample(plain, rng.randint(1, len(plain))) if plain and rng.random() < 0.3 else []
     states = []
-    for _ in range(2):
+    for _ in range(3 if stratum == "conditionals" else 2):
         st = C.gen_state(rng, content, vals=vals)
         states.append([str(rng.choice([0, 1, 2, "1/2"])), [v for _, v in st],
-                       [str(rng.choice([1, 2, 4, "1/2"] if extra.get("oracle_only") else [1, 2, 3, "1/2"])) for _ in free]])
+                       [str(rng.choice(cg.COND_VALUES if stratum == "conditionals" else [1, 2, 4, "1/2"] if extra.get("oracle_only")
+                                       else [1, 2, 3, "1/2"])) for _ in free]])
     return dict({"content": content, "bad": bad_names(content), "free": free,
                  "langs": ["py"] if extra.get("oracle_only") else list(LANGS), "states": states,
                  "decl_seed": rng.randrange(1 << 30), "stratum": stratum}, **extra)
@@ -522,6 +531,11 @@ def exhaustive_cases(thorough: bool):
                             ["r2", {"args": ["n1", "x"], "e": F2[1], "st": [["x", copy.deepcopy(k2)]]}]]}
         out.append({"content": content, "bad": [], "free": [], "langs": list(LANGS), "states": [["1", ["4"], []]],
                     "decl_seed": len(out), "stratum": "exhaustive-coefficients"})
+    # control-flow bodies on a grid of states (oracle only, Python text)
+    for content in cg.cond_grid_contents():
+        out.append({"content": content, "bad": [], "free": [], "langs": ["py"], "oracle_only": True,
+                    "states": [["0", [str(x)], []] for x in (-2, -1, 0, 1, 2)],
+                    "decl_seed": len(out), "stratum": "exhaustive-conditionals"})
     return out
 
 
@@ -608,7 +622,7 @@ def judge_oracle_only(ctx, case, R):
         ctx.hist["skipped_model_raises"] = ctx.hist.get("skipped_model_raises", 0) + 1
         return
     if "gen" in ent:
-        ctx.judge(sc, ent["gen"], {"ok": "text emitted"}, None, what="py: generation raised (wider expression fragment)")
+        ctx.judge(sc, ent["gen"], {"ok": "text emitted"}, None, what="py: generation raised (oracle-only stratum)")
         return
     classes = cg.rich_classes(case["content"])
     fid = "F-C07-10" if "recip-modulus" in classes else "F-C07-11" if "shared-modulus" in classes else None
@@ -620,7 +634,7 @@ def judge_oracle_only(ctx, case, R):
         if cg.close(Re, S):
             Re = S
         ctx.judge(sub_case(case, "py", si), Re, S, None, finding=fid,
-                  what="py: generated code vs model (wider expression fragment)")
+                  what="py: generated code vs model (oracle-only stratum)")
 
 
 def judge_phase(ctx, case, R, M, extern=None, tag=""):
